@@ -154,7 +154,7 @@ def run(tier, only=None):
         "samples": [{"script": t["script"], "invs": [{k: r[k] for k in ("kind", "d", "o", "fault_at", "cls", "exit", "tools")} for r in t["invs"]]}
                     for t in (clean[1], faulted[len(faulted) // 2])],
     }
-    return rep.finish("model_checking", cov, assumptions=[
+    return rep.finish("fault_enumeration", cov, assumptions=[
         "the scripts run unmodified under bash in a private user+mount namespace (unshare, bind mounts, chroot); external tools are the stubs in "
         "harness/stubs, which log their call, fail on request, and otherwise do the minimum the next step needs",
         "a command's step class (setup/build/job/convert/copy/util) is assigned by the stub that logs it; the final cp of ANALYSIS.root is class copy",
